@@ -10,6 +10,7 @@ Generic rule names emitted (mapped to property rule ids by C01/C02/C08/C09):
   INPLACE load-before-store per byte (exact aliasing c == m)
   OUTRANGE nothing is written outside the documented output range on any path
   NONCE2  SIV second-pass nonce composition
+  RT      decrypt returns check_tag's verdict on the tag just generated; no unresolved access (needed by the round trip whatever the cipher is)
 """
 import re
 from ..build import Broken
@@ -460,15 +461,15 @@ def check_cipher(ck, mod, f, label, rulemap):
                 n += 10
         if not enc:
             ch = [e for e in ev if e[0] == "CHECK"]
-            c.ob(len(ch) == 1 and isinstance(p.end[1], Lf) and p.end[1] == Lf.s(("verdict", ch[0][1])) if ch else False, "MODE", "%s-verdict" % name,
+            c.ob(len(ch) == 1 and isinstance(p.end[1], Lf) and p.end[1] == Lf.s(("verdict", ch[0][1])) if ch else False, "RT", "%s-verdict" % name,
                  "the function returns check_tag's verdict", "the function does not return check_tag's verdict on this path")
             if ch and gt:
                 want_t1 = tuple(b for kk in range(8) for b in gf2.sym_word(("TAG", gt[-1][1], kk), 8))
-                c.ob(tuple(ch[0][4]) == want_t1, "MODE", "%s-computed-tag" % name, "check_tag compares the tag just generated", "tag1 passed to check_tag is not the generated tag")
+                c.ob(tuple(ch[0][4]) == want_t1, "RT", "%s-computed-tag" % name, "check_tag compares the tag just generated", "tag1 passed to check_tag is not the generated tag")
                 want_ptr = repr(Lf({in_cur: 1, 1: r}) if r else Lf.s(in_cur))
                 c.ob(ch[0][5] == want_ptr and ch[0][6] == 8, "TAGPOS", "%s-received-tag" % name, "received tag read right after the %d ciphertext byte(s) of this tail (8 bytes)" % r,
                      "received tag is read at %s (%s bytes), expected %s" % (ch[0][5], ch[0][6], want_ptr))
-                c.ob(ch[0][2] == repr(Lf.s(A["m"])), "MODE", "%s-wipe-start" % name, "check_tag gets the start of the plaintext buffer", "check_tag gets %s as plaintext pointer" % ch[0][2])
+                c.ob(ch[0][2] == repr(Lf.s(A["m"])), "RT", "%s-wipe-start" % name, "check_tag gets the start of the plaintext buffer", "check_tag gets %s as plaintext pointer" % ch[0][2])
             wr = {k[1] for k in outs if k[0] == out_cur}
             c.ob(wr == set(range(r)) and all(k[0] == out_cur for k in outs), "OUTRANGE", "%s-writes" % name, "exactly plaintext bytes [0,%d) written in the tail" % r,
                  "the tail writes output %s (expected exactly [0,%d) at the cursor)" % (sorted(outs, key=repr)[:6], r))
@@ -481,7 +482,7 @@ def check_cipher(ck, mod, f, label, rulemap):
                  "the tail writes output offsets %s (expected exactly [0,%d))" % (sorted(wr), r))
             c.ob(not [e for e in ev if e[0] in ("GENTAG", "SETUP", "ABSORB")], "MODE", "%s-no-more-calls" % name, "nothing after the keystream pass", "unexpected calls after the second pass")
             n += 2
-        c.ob(not problems(p), "MODE", "%s-clean" % name, "no unknown access", "unexpected accesses: %s" % problems(p)[:2])
+        c.ob(not problems(p), "RT", "%s-clean" % name, "no unknown access", "unexpected accesses: %s" % problems(p)[:2])
         n += 1
     c.ob(seen == {0, 1, 2, 3, 4}, "ADVANCE", "classes", "all residues 0..3 and the full block are handled", "path classes found: %s" % sorted(seen))
     return n + 1
